@@ -580,6 +580,15 @@ func checkProveStdout(p *core.Program, r *core.Report, ix *funcIndex, prove cliC
 					continue
 				}
 				if k, isConst := o.V.(*ssa.Const); isConst && k.Value != nil {
+					// a line terminator after the document is part of "one JSON proof per line"
+					if k.Value.Kind() == constant.String && strings.TrimSpace(constant.StringVal(k.Value)) == "" {
+						continue
+					}
+					if k.Value.Kind() == constant.Int {
+						if n, exact := constant.Int64Val(k.Value); exact && (n == 10 || n == 13 || n == 32 || n == 9) {
+							continue
+						}
+					}
 					okPrinted = false
 					detail = "a constant is printed along with the proof: " + k.Value.String()
 					continue
